@@ -59,6 +59,9 @@ pub struct Program
 
 const LEVELS: &[&str] = &["info", "warn", "error", "debug", "trace"];
 const TARGETS9: &[&str] = &["t1", "app::net", "a,b", "x;y z"];
+/// non-literal target expressions (valid for the log crate; documented as not recognised by Breadlog,
+/// so such statements must simply stay as they are - or, if a version does edit them, still behave)
+const TARGET_EXPRS9: &[&str] = &["TGT", "tf(n, \"app::misc\")", "module_path!()", "tf(n, \"a;b\")"];
 /// (source text of the pair, key)
 const KVS: &[(&str, &str)] = &[
     ("k1 = n", "k1"),
@@ -109,7 +112,7 @@ const GAPS9: &[&str] = &["", " ", "\n        ", " /* c */ ", " // c\n        ", 
 fn pstmt() -> BoxedStrategy<PStmt>
 {
     (
-        (0u8..5, any::<bool>(), proptest::option::weighted(0.35, 0u8..4), vec(0u8..KVS.len() as u8, 0..=3)),
+        (0u8..5, any::<bool>(), proptest::option::weighted(0.35, prop_oneof![5 => 0u8..4, 1 => 4u8..8]), vec(0u8..KVS.len() as u8, 0..=3)),
         (proptest::option::weighted(0.2, 1u32..5000), vec(0u8..PIECES.len() as u8, 0..6), vec(0u8..GAPS9.len() as u8, 1..6)),
         (prop_oneof![8 => Just(0u8), 1 => Just(1u8), 1 => Just(2u8)], any::<bool>(), prop_oneof![3 => Just(0u8), 2 => 1u8..CONTEXTS9.len() as u8], prop_oneof![9 => Just(false), 1 => Just(true)]),
     )
@@ -172,7 +175,14 @@ fn render(p: &Program) -> RenderedProg
         gap(&mut body);
         if let Some(t) = s.target
         {
-            body.push_str(&format!("target: \"{}\",", TARGETS9[t as usize % TARGETS9.len()]));
+            if (t as usize) < TARGETS9.len()
+            {
+                body.push_str(&format!("target: \"{}\",", TARGETS9[t as usize]));
+            }
+            else
+            {
+                body.push_str(&format!("target: {},", TARGET_EXPRS9[(t as usize - TARGETS9.len()) % TARGET_EXPRS9.len()]));
+            }
             gap(&mut body);
         }
         // distinct keys
@@ -266,6 +276,9 @@ use std::fmt;
 #[derive(Debug)]
 pub struct P { pub x: i32, pub name: String }
 impl fmt::Display for P { fn fmt(&self, f: &mut fmt::Formatter) -> fmt::Result { write!(f, "P<{}:{}>", self.x, self.name) } }
+
+pub const TGT: &str = "const-target";
+pub fn tf(_n: i32, s: &'static str) -> &'static str { s }
 
 struct Cap;
 struct V(String);
@@ -550,7 +563,7 @@ pub fn run(env: &Env, rec: &Recorder) -> (String, Vec<&'static str>)
     rec.extra("programs", json!(rec.cases()));
     rec.extra("disagreements_checked", json!(rec.violation_count()));
     (
-        "programs of 12-30 log statements (5 levels, bare or log::-qualified, optional target, 0-3 key-values incl. shorthand captures and ?/%/debug/display modifiers, format strings with positional/inline/named/width arguments, escaped quotes and braces, multi-line layouts with comments between arguments, ten syntactic contexts (plain, if/else, match arm, closure, block, let, for, loop, map), breadlog:ignore / no-kvp directives, some statements already referenced), both styles. Breadlog edits the program; ONE crate containing the original and the edited body is compiled with rustc against log 0.4.22 (feature kv) and executed with a capturing logger. Oracle: edited program compiles; same number of records; unedited statements log identically; an edited statement logs the same level/target/key-values and message with exactly `[ref: N] ` prepended (and the documented regex extracts N), or the same message with (ref, N) prepended to the key-values. Non-trivial = distinct edited statement with a target, key-values or >= 2 format arguments".to_string(),
+        "programs of 12-30 log statements (5 levels, bare or log::-qualified, optional target (string literal, or - 1 in 6 - a constant / function call / module_path!() expression), 0-3 key-values incl. shorthand captures and ?/%/debug/display modifiers, format strings with positional/inline/named/width arguments, escaped quotes and braces, multi-line layouts with comments between arguments, ten syntactic contexts (plain, if/else, match arm, closure, block, let, for, loop, map), breadlog:ignore / no-kvp directives, some statements already referenced), both styles. Breadlog edits the program; ONE crate containing the original and the edited body is compiled with rustc against log 0.4.22 (feature kv) and executed with a capturing logger. Oracle: edited program compiles; same number of records; unedited statements log identically; an edited statement logs the same level/target/key-values and message with exactly `[ref: N] ` prepended (and the documented regex extracts N), or the same message with (ref, N) prepended to the key-values. Non-trivial = distinct edited statement with a target, key-values or >= 2 format arguments".to_string(),
         vec![":err/:sval/:serde capture modifiers are excluded: their crates (value-bag-serde1, sval) are not available offline, so such programs cannot be compiled here", "a generated program whose ORIGINAL does not compile is a generator defect: counted in class_histogram, never reported as a violation"],
     )
 }
